@@ -31,7 +31,7 @@ type BoxFut = Pin<Box<dyn Future<Output = ()> + Send + 'static>>;
 
 pub struct Spawned {
     pub fut: BoxFut,
-    pub on_panic: Box<dyn FnOnce() + Send>,
+    pub on_panic: Box<dyn FnOnce(Box<dyn Any + Send>) + Send>,
 }
 
 #[derive(Default)]
@@ -205,6 +205,7 @@ impl<T> Drop for Gate<T> {
 
 pub struct JoinError {
     panic: bool,
+    payload: Mutex<Option<Box<dyn Any + Send>>>,
 }
 impl JoinError {
     pub fn is_panic(&self) -> bool {
@@ -212,6 +213,17 @@ impl JoinError {
     }
     pub fn is_cancelled(&self) -> bool {
         !self.panic
+    }
+    /// as tokio: the payload the task panicked with
+    pub fn into_panic(self) -> Box<dyn Any + Send> {
+        self.try_into_panic().expect("`JoinError` reason is not a panic.")
+    }
+    pub fn try_into_panic(self) -> Result<Box<dyn Any + Send>, JoinError> {
+        let p = self.payload.lock().unwrap_or_else(|e| e.into_inner()).take();
+        match p {
+            Some(p) if self.panic => Ok(p),
+            _ => Err(self),
+        }
     }
 }
 impl std::fmt::Debug for JoinError {
@@ -294,7 +306,7 @@ where
             let v = fut.await;
             slot_set(&s1, Ok(v));
         }),
-        on_panic: Box::new(move || slot_set(&s2, Err(JoinError { panic: true }))),
+        on_panic: Box::new(move |p| slot_set(&s2, Err(JoinError { panic: true, payload: Mutex::new(Some(p)) }))),
     });
     JoinHandle { slot }
 }
@@ -341,7 +353,7 @@ pub fn panic_msg(p: &Box<dyn Any + Send>) -> String {
 
 struct TaskRec {
     fut: Option<Pin<Box<dyn Future<Output = ()> + 'static>>>,
-    on_panic: Option<Box<dyn FnOnce() + Send>>,
+    on_panic: Option<Box<dyn FnOnce(Box<dyn Any + Send>) + Send>>,
     waker: Waker,
 }
 
@@ -557,12 +569,13 @@ pub fn run_root<R: 'static>(mk: impl FnOnce() -> Pin<Box<dyn Future<Output = R> 
                         let _ = catch_unwind(AssertUnwindSafe(move || drop(fut)));
                         ex().alive[t as usize] = false;
                         lock().push(t, Ph::Exit, 0, t, 1);
+                        let msg = panic_msg(&p);
                         if let Some(op) = tasks[t as usize].on_panic.take() {
-                            op();
+                            op(p);
                         }
                         if t == 0 {
                             root_done = true;
-                            end = Some(AsyncEnd::Panic(panic_msg(&p)));
+                            end = Some(AsyncEnd::Panic(msg));
                             lock().push(0, Ph::RootDone, 0, 0, 1);
                             draining = true;
                         }
